@@ -810,7 +810,10 @@ def parse_tree_to_objgraph(
         # Collect rules for textx-tools
         if inst is not None and metamodel.textx_tools_support:
             pos = (inst._tx_position, inst._tx_position_end)
-            pos_rule_dict[pos] = inst
+            # Nested objects are collected before their containers. If they
+            # span the same text the innermost one is kept.
+            if pos not in pos_rule_dict:
+                pos_rule_dict[pos] = inst
 
         return inst
 
